@@ -623,7 +623,7 @@ Proof.
   { unfold effective_pred. destruct (Z.eqb_spec pred 0); [lia | reflexivity]. }
   rewrite Hep in Henc.
   pose proof (encode_stream_fwd w h comps P pred _ bits vals Hopt) as Hf. rewrite Henc in Hf.
-  rewrite (lookup_ok_facts bits vals (table_ok_facts _ _ Hok)) in Hf. apply Ok_inj in Hf. symmetry. exact Hf.
+  apply Ok_inj in Hf. symmetry. exact Hf.
 Qed.
 
 (* Conversely lossless.Decode (model) reconstructs the source of every stream of the T.81 encoder
